@@ -114,7 +114,8 @@ Inductive path :=
 | PStaticAssign    (* s = e; s op= e; s++ on a static: the static copy has lost is_unsigned (static.cpp create_static_variable) - no clamp,
                       range of the SIGNED type *)
 | PElem1Global     (* g[i] = e; global array: is_unsigned lost - no clamp, range of the signed type; read narrows *)
-| PArrLitAssign1   (* a = [..];  1-D      CommonOperations::assign_array_literal_to_variable (operations.cpp:68): clamp only; read narrows *)
+| PArrLitAssign1   (* a = [..];  1-D      CommonOperations::assign_array_literal_to_variable (operations.cpp:68): clamp only; read narrows.
+                      Also `typedef T A; A[n] a = [..];` (initialization.cpp handle_array_literal_initialization -> the same function) *)
 | PArrLitAssignN   (* m = [[..]..];       same function, nested literal: clamp only *)
 | PArrCopy         (* a = b; T[n] a = f(); array parameter: the Variable is replaced wholesale (element type included): nothing *).
 
